@@ -203,6 +203,8 @@ def gen_conversation(rng, kinds, tag):
         c["keep"] = rng.choice([0, 1])
         if rng.random() < 0.4:
             c["exc"] = rng.choice(["badstr", "sysexit"])
+        if not c["keep"] and rng.random() < 0.4:
+            c["stderr"] = "closed"
     elif kind == "both_drop_cb":
         c["items"] = gen_items(rng, rng.randint(0, 3), big=False)
     elif kind == "subchannel_dropped":
@@ -683,9 +685,21 @@ def run_program(prog, chooser, seed, line_budget=0, cut_w2i=None, remote_backend
         sc.spawn(controller, name="controller")
     if line_budget:
         S.enable_line_preemption(sc, REPO_SRC)
+    import sys as _sys
+
+    _saved_stderr = _sys.stderr
+    if any(c.get("stderr") == "closed" for c in prog):
+        # a process whose stderr is gone (daemonised, closed by the application): warnings about unclaimed remote errors have
+        # nowhere to go, which must not matter to the gateway
+        import io as _io
+
+        _f = _io.StringIO()
+        _f.close()
+        _sys.stderr = _f
     try:
         res = sc.run(timeout=120)
     finally:
+        _sys.stderr = _saved_stderr
         if line_budget:
             S.disable_line_preemption()
         pr.restore()
